@@ -668,8 +668,15 @@ impl<'a> Parser<'a> {
             (None, 0)
         };
         let ix = ix + skip;
+        #[cfg(feature = "verif_hooks")]
+        let verif_oldflags = self.flags;
         let (ix, child) = self.parse_re(ix, depth)?;
         let ix = self.check_for_close_paren(ix)?;
+        #[cfg(feature = "verif_hooks")]
+        if crate::verif::flag_scope_repair() {
+            // attribution switch only: inline flags end at the group's closing parenthesis
+            self.flags = verif_oldflags;
+        }
         let result = match (la, skip) {
             (Some(la), _) => Expr::LookAround(Box::new(child), la),
             (None, 2) => Expr::AtomicGroup(Box::new(child)),
@@ -762,6 +769,8 @@ impl<'a> Parser<'a> {
             return Err(Error::ParseError(ix, ParseError::UnclosedOpenParen));
         }
         let bytes = self.re.as_bytes();
+        #[cfg(feature = "verif_hooks")]
+        let verif_oldflags = self.flags;
         // get the character after the open paren
         let b = bytes[ix];
         let (mut next, condition) = if is_digit(b) {
@@ -812,6 +821,10 @@ impl<'a> Parser<'a> {
         };
 
         let after = self.check_for_close_paren(end)?;
+        #[cfg(feature = "verif_hooks")]
+        if crate::verif::flag_scope_repair() {
+            self.flags = verif_oldflags;
+        }
         Ok((
             after,
             if if_true == Expr::Empty && if_false == Expr::Empty {
